@@ -229,6 +229,7 @@ def run(ctx):
     d10_redefinition_gets_fresh_temp(db, rep)
     d11_const_load_width(db, rep)
     importlib.import_module("rules.c15").const_slot_shared_by_size(db, rep, "D12-CONST-SLOT-BY-SIZE")
+    __import__("importlib").import_module("rules.c03").c_index_products_wide(db, rep, "D13-INDEX-WIDE")
 
     if ctx.tier == "thorough":
         d5(ctx, rep)
